@@ -20,6 +20,14 @@ macro_rules! run_call {
                 $fft.multiply_into($a, $b, &mut d);
                 d
             }
+            "inv_into" => {
+                let fa = $fft.fft($a, $n);
+                let fb = $fft.fft($b, $n);
+                let prod: Vec<_> = fa.iter().zip(fb.iter()).map(|(x, y)| *x * *y).collect();
+                let mut d: Vec<i64> = $dst.clone();
+                $fft.fft_inv_into(&prod, &mut d);
+                d
+            }
             _ => {
                 let fa = $fft.fft($a, $n);
                 let fb = $fft.fft($b, $n);
@@ -134,10 +142,11 @@ macro_rules! record_with {
             let (sa, sb) = (rng.below(4), rng.below(4));
             let a = coeffs(rng, la, max, sa);
             let b = coeffs(rng, lb, max, sb);
-            let kind = ["multiply", "multiply_into", "pointwise", "multiply"][call % 4];
+            let kind = ["multiply", "multiply_into", "pointwise", "multiply", "inv_into"][call % 5];
             let mut n = 2;
             while n < la + lb - 1 { n *= 2; }
-            let dst: Vec<i64> = if kind == "multiply_into" { (0..la + lb + 2).map(|i| (i as i64 % 7) - 3).collect() } else { vec![] };
+            let dst: Vec<i64> = if kind == "multiply_into" { (0..la + lb + 2).map(|i| (i as i64 % 7) - 3).collect() }
+                                else if kind == "inv_into" { (0..n + 5).map(|i| (i as i64 % 7) - 3).collect() } else { vec![] };
             let r = catch(|| run_call!(obj, kind, &a, &b, dst, n));
             seq += 1;
             let mut ev = json!({"ev": "call", "kind": kind, "float": $fname, "a": a, "b": b, "dst": dst, "n": n, "seq": seq, "max": max});
@@ -153,6 +162,47 @@ macro_rules! record_with {
             $t.ev(ev);
         }
     }};
+}
+
+macro_rules! complex_table {
+    ($F:ty, $name:expr, $t:expr, $k:expr) => {{
+        let k: i64 = $k;
+        let c = |x: i64, y: i64| Complex::<$F>::new(x as $F, y as $F);
+        let p = |z: Complex<$F>| json!([z.x as i64, z.y as i64]);
+        for a in -k..=k {
+            let r = catch(|| {
+                let mut rows = vec![];
+                for b in -k..=k {
+                    for cc in -k..=k {
+                        for d in -k..=k {
+                            let (x, y) = (c(a, b), c(cc, d));
+                            let mut ma = x;
+                            ma *= y;
+                            let n2 = cc * cc + d * d;
+                            let q = (a * cc + b * d, b * cc - a * d);
+                            let div = if n2 != 0 && q.0 % n2 == 0 && q.1 % n2 == 0 { p(x / y) } else { json!([]) };
+                            rows.push(json!([a, b, cc, d, p(x + y), p(x - y), p(x * y), p(ma), p(-x), p(x.conj()), x.abs2() as i64, p(x * (cc as $F)), div]));
+                        }
+                    }
+                }
+                rows
+            });
+            match r {
+                Ok(rows) => $t.ev(json!({"ev": "tab", "float": $name, "k": k, "rows": rows})),
+                Err(pn) => $t.ev(json!({"ev": "tab", "float": $name, "k": k, "panic": pn})),
+            }
+        }
+    }};
+}
+
+/// beyond the listed properties: Complex<F> against Gaussian-integer arithmetic (ComplexTrace.tla)
+pub fn record_complex(tier: &str, out: &str) {
+    let mut t = TraceWriter::create(out);
+    let k = if tier == "thorough" { 6 } else { 4 };
+    complex_table!(f64, "f64", t, k);
+    complex_table!(f32, "f32", t, k);
+    let ev = t.finish();
+    println!("{}", json!({"events": ev, "runs": 2}));
 }
 
 pub fn record(seed: u64, tier: &str, out: &str) {
